@@ -241,6 +241,7 @@ func runH3(t *testing.T, prog *hx.Program, dec *simrt.Decider, verbose bool, nse
 	cfg := simrt.Config{
 		StickyPct:  int(prog.Param("sticky", 80)),
 		LockYield:  int(prog.Param("lockyield", 100)),
+		MapSeed:    uint64(prog.Param("mapseed", 0)),
 		MaxSteps:   int(prog.Param("maxsteps", 400000)),
 		Horizon:    time.Duration(prog.Param("horizon_s", 3600)) * time.Second,
 		Verbose:    verbose,
